@@ -124,6 +124,20 @@ def gen_programs(ck, sc, tag):
     return out, res
 
 
+def _confirm_hang(ck, table, r):
+    """A call that did not return within the deadline (60 s = 30x the longest timer on these paths) is only reported
+    when the same program hangs again in three further runs, each run alone."""
+    pp = os.path.join(ck.dir, "confirm_hang_program.ndjson")
+    c = r["case"]
+    vlib.write_ndjson(pp, [{"pre": c["pre"], "modes": [c["mode"]], "medias": [c["media"]], "calls": c["calls"]}])
+    for k in range(3):
+        out = os.path.join(ck.dir, "confirm_hang.ndjson")
+        p = vlib.run_bin("jsep", [table, pp, out, "1"], timeout=1200)
+        if p.returncode != 0 or not any(x.get("failure_site") == "hang" for x in vlib.read_ndjson(out)):
+            return False
+    return True
+
+
 def replay_programs(ck, table, programs, label, jobs):
     out = os.path.join(ck.dir, f"replay_{label.replace('/', '_')}.ndjson")
     p = vlib.run_bin("jsep", [table, programs, out, str(jobs)], timeout=3400)
@@ -138,6 +152,9 @@ def replay_programs(ck, table, programs, label, jobs):
         if ty == "divergence":
             r["case"] = {"mode": r["mode"], "media": r.get("media", "av"), "pre": r["pre"], "calls": r["program"],
                          "scenario": label}
+            if r.get("failure_site") == "hang" and not _confirm_hang(ck, table, r):
+                ck.notes.append({"unconfirmed_hang": r["case"]})
+                continue
             ck.divergence(sig_of(r), r)
         elif ty == "drift":
             ck.drift.append({k: r[k] for k in ("mode", "pre", "call", "t", "d", "sig", "field", "expected", "observed", "err")})
